@@ -327,6 +327,10 @@ func runC18(c *core.Ctx) {
 				c.Violate("offset", "C18/offset/spurious", "a clock offset came back although none was sent")
 				return
 			}
+			if offGot != nil && t.Chance(1, 2) {
+				*offGot += 777_000_000_007 // the value that was handed out is the application's: it adjusts it in place
+				c.Probe("returned-offset-modified-in-place")
+			}
 		})
 		// next send instant: microseconds to minutes later, sometimes right at the boundary
 		var adv int64
